@@ -285,4 +285,230 @@ Section Trust.
       split; [reflexivity|]. intros o Ho. destruct (Hper o Ho) as (e & Ee & news' & Ea' & Hl).
       assert (news' = news) by congruence. subst news'. unfold out_of. rewrite Ee, Hl. reflexivity.
   Qed.
+
+  (* ---------------------------------------------------------------------------------------- *)
+  (* filegroups *)
+
+  Fixpoint missing (t : target) (fs : list str) : nat :=
+    match fs with
+    | [] => 0
+    | f :: fs' => match alookup (join (t_pkg t) f) (r_files r) with Some _ => missing t fs' | None => S (missing t fs') end
+    end.
+
+  Definition fg_step (t : target) (rn : run) (f : str) : run :=
+    let rel := join (t_pkg t) f in
+    match alookup rel (r_files r) with
+    | None => fail_run rn t (rn_st rn)
+    | Some c =>
+        let st := rn_st rn in
+        match s_outs st rel with
+        | Some e => if str_eqb (stream (e_node e)) c then rn
+                    else mkRun (set_out st rel (Some (mkE (File false c) None))) (rn_log rn) (rn_failed rn)
+        | None => mkRun (set_out st rel (Some (mkE (File false c) None))) (rn_log rn) (rn_failed rn)
+        end
+    end.
+
+  Lemma build_filegroup_fold t rn : build_filegroup r t rn = fold_left (fg_step t) (outputs t) rn.
+  Proof. reflexivity. Qed.
+
+  Lemma fg_fold_spec t fs : forall rn, NoDup fs -> Trust (rn_st rn) ->
+    let rn' := fold_left (fg_step t) fs rn in
+    Trust (rn_st rn')
+    /\ rn_failed rn' = repeat (t_label t) (missing t fs) ++ rn_failed rn
+    /\ (forall f c, In f fs -> alookup (join (t_pkg t) f) (r_files r) = Some c ->
+          out_of (rn_st rn') t f = Some (File false c)).
+  Proof.
+    induction fs as [|f fs IH]; intros rn Hnd T; cbn [fold_left].
+    - cbn. repeat split; auto. intros f c [].
+    - inversion Hnd as [|? ? Hnot Hnd']; subst.
+      assert (H1 : Trust (rn_st (fg_step t rn f))
+                   /\ rn_failed (fg_step t rn f) = (match alookup (join (t_pkg t) f) (r_files r) with Some _ => [] | None => [t_label t] end) ++ rn_failed rn
+                   /\ (forall c, alookup (join (t_pkg t) f) (r_files r) = Some c -> out_of (rn_st (fg_step t rn f)) t f = Some (File false c))).
+      { unfold fg_step. destruct (alookup (join (t_pkg t) f) (r_files r)) as [c|].
+        - destruct (s_outs (rn_st rn) (join (t_pkg t) f)) as [e|] eqn:Ee.
+          + destruct (str_eqb_spec (stream (e_node e)) c) as [Es|_].
+            * repeat split; auto. intros c' E. injection E as <-. unfold out_of, out_rel. rewrite Ee. cbn [option_map].
+              f_equal. apply good_inj; [eapply (tr_good _ T); exact Ee|apply good_file|exact Es].
+            * cbn [rn_st rn_failed]. repeat split; [apply trust_set_file; exact T|].
+              intros c' E. injection E as <-. unfold out_of, out_rel. rewrite set_out_same. reflexivity.
+          + cbn [rn_st rn_failed]. repeat split; [apply trust_set_file; exact T|].
+            intros c' E. injection E as <-. unfold out_of, out_rel. rewrite set_out_same. reflexivity.
+        - unfold fail_run. cbn [rn_st rn_failed]. repeat split; auto. intros c E. discriminate. }
+      destruct H1 as (T1 & Hf1 & Ho1). destruct (IH (fg_step t rn f) Hnd' T1) as (T2 & Hf2 & Ho2).
+      cbn zeta. repeat split; [exact T2| |].
+      + rewrite Hf2, Hf1. cbn [missing]. destruct (alookup (join (t_pkg t) f) (r_files r)); cbn [app]; [reflexivity|].
+        change (t_label t :: rn_failed rn) with (repeat (t_label t) 1 ++ rn_failed rn).
+        rewrite app_assoc, <- repeat_app. f_equal. f_equal. lia.
+      + intros g c [<-|Hg] Hc; [|apply Ho2; assumption].
+        (* later steps touch other paths only *)
+        assert (Hfr : forall fs' rn0, ~ In f fs' ->
+                  s_outs (rn_st (fold_left (fg_step t) fs' rn0)) (join (t_pkg t) f) = s_outs (rn_st rn0) (join (t_pkg t) f)).
+        { induction fs' as [|h fs' IHf]; intros rn0 Hn; cbn [fold_left]; [reflexivity|].
+          rewrite IHf by (intros Hi; apply Hn; right; exact Hi).
+          assert (Hne : join (t_pkg t) f <> join (t_pkg t) h) by (intros E; apply join_inj in E; apply Hn; left; symmetry; exact E).
+          unfold fg_step. destruct (alookup (join (t_pkg t) h) (r_files r)); [|reflexivity].
+          destruct (s_outs (rn_st rn0) (join (t_pkg t) h)); [destruct (str_eqb _ _); [reflexivity|]|];
+            cbn [rn_st]; apply set_out_other; exact Hne. }
+        unfold out_of, out_rel in *. rewrite Hfr by exact Hnot. apply Ho1. exact Hc.
+  Qed.
+
+  (* ---------------------------------------------------------------------------------------- *)
+  (* what a step should produce, as a function of the repository and the inputs in the store *)
+
+  Definition outcome (st : store) (t : target) : option (list (str * node)) :=
+    if is_filegroup t then
+      match missing t (outputs t) with
+      | O => Some (map (fun f => (f, match alookup (join (t_pkg t) f) (r_files r) with
+                                     | Some c => File false c | None => File false [] end)) (outputs t))
+      | S _ => None
+      end
+    else match gather (read r st) (all_paths r t) with
+         | Some ins => act (t_kind t) (outputs t) (tmp_ins ins)
+         | None => None
+         end.
+  Definition fail_count (t : target) : nat := if is_filegroup t then missing t (outputs t) else 1.
+
+  Definition step_spec (rn rn' : run) (t : target) : Prop :=
+    Trust (rn_st rn')
+    /\ match outcome (rn_st rn) t with
+       | Some news => rn_failed rn' = rn_failed rn
+                      /\ forall o, In o (outputs t) -> out_of (rn_st rn') t o = alookup o news /\ alookup o news <> None
+       | None => rn_failed rn' = repeat (t_label t) (fail_count t) ++ rn_failed rn
+       end.
+
+  Lemma missing_zero t fs : missing t fs = 0 -> forall f, In f fs -> exists c, alookup (join (t_pkg t) f) (r_files r) = Some c.
+  Proof.
+    induction fs as [|g fs IH]; cbn [missing]; intros H f Hin; [destruct Hin|].
+    destruct (alookup (join (t_pkg t) g) (r_files r)) as [c|] eqn:E; [|discriminate].
+    destruct Hin as [<-|Hin]; [exists c; exact E|apply IH; assumption].
+  Qed.
+
+  Lemma build_one_spec rn done t todo : r_targets r = done ++ t :: todo -> blocked r rn t = false ->
+    Trust (rn_st rn) -> step_spec rn (build_one false r rn t) t.
+  Proof.
+    intros Hs Hb T. unfold build_one. rewrite Hb. unfold step_spec, outcome, fail_count.
+    pose proof (outputs_nodup done t todo Hs) as Hnd.
+    destruct (is_filegroup t) eqn:Efg.
+    - rewrite build_filegroup_fold. destruct (fg_fold_spec t (outputs t) rn Hnd T) as (T' & Hf & Ho).
+      split; [exact T'|]. destruct (missing t (outputs t)) eqn:Em.
+      + split; [exact Hf|]. intros o Hin. destruct (missing_zero t _ Em o Hin) as [c Hc].
+        assert (Hl : alookup o (map (fun f => (f, match alookup (join (t_pkg t) f) (r_files r) with
+                                     | Some c => File false c | None => File false [] end)) (outputs t)) = Some (File false c)).
+        { apply alookup_in.
+          - rewrite map_map. cbn [fst]. rewrite map_id. exact Hnd.
+          - apply in_map_iff. exists o. rewrite Hc. split; [reflexivity|exact Hin]. }
+        rewrite Hl. split; [apply Ho; assumption|discriminate].
+      + exact Hf.
+    - destruct (build_rule_spec rn done t todo Hs Efg T) as [T' Hspec]. split; [exact T'|].
+      destruct (gather (read r (rn_st rn)) (all_paths r t)) as [ins|]; [|exact Hspec].
+      destruct (act (t_kind t) (outputs t) (tmp_ins ins)) as [news|] eqn:Ea; [|exact Hspec].
+      destruct Hspec as [Hf Ho]. split; [exact Hf|]. intros o Hin. split; [apply Ho; exact Hin|].
+      apply act_names in Ea. rewrite <- Ea in Hin. destruct (alookup_names news o Hin) as [v Hv]. rewrite Hv. discriminate.
+  Qed.
+
+  (* ---------------------------------------------------------------------------------------- *)
+  (* two builds of the same repository from two trusted stores agree *)
+
+  Definition Agree (ds : list target) (a b : run) : Prop :=
+    forall d, In d ds -> ~ In (t_label d) (rn_failed a) ->
+    forall o, In o (outputs d) -> out_of (rn_st a) d o = out_of (rn_st b) d o /\ out_of (rn_st a) d o <> None.
+
+  Lemma find_target_label ts l d : find_target ts l = Some d -> t_label d = l.
+  Proof.
+    induction ts as [|t ts IH]; cbn [find_target]; [discriminate|].
+    destruct (str_eqb_spec l (t_label t)) as [->|_]; [intros H; injection H as ->; reflexivity|exact IH].
+  Qed.
+
+  Lemma inputs_from_dep done t todo p : r_targets r = done ++ t :: todo ->
+    In p (all_paths r t) -> fst p = true ->
+    exists l d o, In l (label_srcs (t_srcs t)) /\ In d done /\ t_label d = l /\ In o (outputs d) /\ snd p = out_rel d o.
+  Proof.
+    intros Hs Hp Hg. unfold all_paths in Hp. apply in_flat_map in Hp. destruct Hp as [x [Hx Hp]].
+    destruct x as [f|l]; cbn [src_paths] in Hp.
+    - destruct Hp as [<-|[]]. discriminate.
+    - assert (Hl : In l (label_srcs (t_srcs t))).
+      { clear -Hx. induction (t_srcs t) as [|y ys IH]; [destruct Hx|]. destruct Hx as [->|Hx]; cbn [label_srcs].
+        - left. reflexivity.
+        - destruct y; [apply IH; exact Hx|right; apply IH; exact Hx]. }
+      destruct (wf_topo r W done t todo Hs l Hl) as [d [Hd Hf]]. rewrite Hf in Hp.
+      apply in_map_iff in Hp. destruct Hp as [o [<- Ho]]. exists l, d, o. repeat split; auto.
+      eapply find_target_label. exact Hf.
+  Qed.
+
+  Lemma outcome_agree done t todo a b : r_targets r = done ++ t :: todo ->
+    rn_failed a = rn_failed b -> blocked r a t = false -> Agree done a b ->
+    outcome (rn_st a) t = outcome (rn_st b) t.
+  Proof.
+    intros Hs Hf Hb Hag. unfold outcome. destruct (is_filegroup t); [reflexivity|].
+    assert (Hg : gather (read r (rn_st a)) (all_paths r t) = gather (read r (rn_st b)) (all_paths r t)).
+    { apply gather_ext. intros p Hp. unfold read. destruct (fst p) eqn:Eg; [|reflexivity].
+      destruct (inputs_from_dep done t todo p Hs Hp Eg) as (l & d & o & Hl & Hd & Hdl & Ho & Hrel).
+      assert (Hnf : ~ In (t_label d) (rn_failed a)).
+      { unfold blocked in Hb. intros Hi. assert (existsb (fun l => mem l (rn_failed a)
+            || match find_target (r_targets r) l with Some _ => false | None => true end) (label_srcs (t_srcs t)) = true).
+        { apply existsb_exists. exists l. split; [exact Hl|]. rewrite <- Hdl. apply mem_In in Hi. rewrite Hi. reflexivity. }
+        congruence. }
+      destruct (Hag d Hd Hnf o Ho) as [E _]. unfold out_of in E. rewrite Hrel. symmetry. exact E. }
+    rewrite Hg. reflexivity.
+  Qed.
+
+  Lemma sim : forall todo done a b, r_targets r = done ++ todo ->
+    Trust (rn_st a) -> Trust (rn_st b) -> rn_failed a = rn_failed b -> Agree done a b ->
+    let a' := fold_left (build_one false r) todo a in
+    let b' := fold_left (build_one false r) todo b in
+    Trust (rn_st a') /\ Trust (rn_st b') /\ rn_failed a' = rn_failed b' /\ Agree (r_targets r) a' b'.
+  Proof.
+    induction todo as [|t todo IH]; intros done a b Hs Ta Tb Hf Hag; cbn [fold_left].
+    - cbn zeta. rewrite app_nil_r in Hs. rewrite Hs. auto.
+    - cbn zeta. apply (IH (done ++ [t])); clear IH.
+      + rewrite <- app_assoc. exact Hs.
+      + unfold build_one. destruct (blocked r a t) eqn:Eb; [exact Ta|].
+        destruct (build_one_spec a done t todo Hs Eb Ta) as [T _]. unfold build_one in T. rewrite Eb in T. exact T.
+      + unfold build_one. destruct (blocked r b t) eqn:Eb; [exact Tb|].
+        destruct (build_one_spec b done t todo Hs Eb Tb) as [T _]. unfold build_one in T. rewrite Eb in T. exact T.
+      + assert (Ebb : blocked r b t = blocked r a t) by (unfold blocked; rewrite Hf; reflexivity).
+        destruct (blocked r a t) eqn:Eb.
+        * unfold build_one. rewrite Eb, Ebb. cbn. rewrite Hf. reflexivity.
+        * destruct (build_one_spec a done t todo Hs Eb Ta) as [_ Sa].
+          destruct (build_one_spec b done t todo Hs Ebb Tb) as [_ Sb].
+          rewrite <- (outcome_agree done t todo a b Hs Hf Eb Hag) in Sb.
+          destruct (outcome (rn_st a) t) as [news|].
+          -- destruct Sa as [-> _], Sb as [-> _]. exact Hf.
+          -- rewrite Sa, Sb, Hf. reflexivity.
+      + assert (Ebb : blocked r b t = blocked r a t) by (unfold blocked; rewrite Hf; reflexivity).
+        intros d Hd Hnf o Ho. apply in_app_or in Hd. destruct Hd as [Hd|[<-|[]]].
+        * (* an earlier target: untouched on both sides *)
+          destruct (build_one_frame r a t) as [Fa _]. destruct (build_one_frame r b t) as [Fb _].
+          assert (Hnot : ~ In (out_rel d o) (out_rels t)).
+          { intros Hi. eapply (outs_disjoint r done t todo d); try eassumption. unfold out_rels. apply in_map. exact Ho. }
+          unfold out_of. rewrite (Fa _ Hnot), (Fb _ Hnot). apply (Hag d Hd); [|exact Ho].
+          intros Hi. apply Hnf. destruct (build_one_failed false r a t) as [n Hn]. rewrite Hn. apply in_or_app. right. exact Hi.
+        * (* the target just built *)
+          destruct (blocked r a d) eqn:Eb.
+          { exfalso. apply Hnf. unfold build_one. rewrite Eb. left. reflexivity. }
+          destruct (build_one_spec a done d todo Hs Eb Ta) as [_ Sa].
+          rewrite <- Ebb in Eb. destruct (build_one_spec b done d todo Hs Eb Tb) as [_ Sb]. rewrite Ebb in Eb.
+          rewrite <- (outcome_agree done d todo a b Hs Hf Eb Hag) in Sb.
+          destruct (outcome (rn_st a) d) as [news|] eqn:Eo.
+          -- destruct Sa as [_ Sa], Sb as [_ Sb]. destruct (Sa o Ho) as [Ea Hne], (Sb o Ho) as [Eb' _].
+             rewrite Ea, Eb'. split; [reflexivity|exact Hne].
+          -- exfalso. apply Hnf. rewrite Sa.
+             assert (Hpos : fail_count d <> 0).
+             { unfold fail_count, outcome in *. destruct (is_filegroup d); [|discriminate].
+               destruct (missing d (outputs d)); [discriminate|discriminate]. }
+             destruct (fail_count d); [congruence|]. left. reflexivity.
+  Qed.
+
+  Theorem builds_agree sta stb : Trust sta -> Trust stb ->
+    let a := build_all false r sta in
+    let b := build_all false r stb in
+    Trust (rn_st a) /\ rn_failed a = rn_failed b
+    /\ forall t, In t (r_targets r) -> ~ In (t_label t) (rn_failed a) -> outs_of (rn_st a) t = outs_of (rn_st b) t.
+  Proof.
+    intros Ta Tb. cbn zeta. unfold build_all.
+    destruct (sim (r_targets r) [] (mkRun sta [] []) (mkRun stb [] []) eq_refl Ta Tb eq_refl) as (T & _ & Hf & Hag).
+    { intros d []. }
+    split; [exact T|]. split; [exact Hf|]. intros t Ht Hnf. unfold outs_of. apply map_ext_in. intros o Ho.
+    f_equal. apply (Hag t Ht Hnf o Ho).
+  Qed.
 End Trust.
